@@ -109,3 +109,73 @@ Proof. unfold tsvd_fit, ex_svd. cbn [ncols exX Nat.leb]. unfold slice. cbn. eexi
 (* an orthonormal 1-frame other than the leading component *)
 Lemma ex_frame : orthocols 2 1 (fun i _ => if Nat.eqb i 1 then 1 else 0).
 Proof. intros a b Ha Hb. assert (a = 0%nat) by lia. assert (b = 0%nat) by lia. subst. unfold rsum, delta. cbn. lra. Qed.
+
+(* ---------- instance in correlation mode (EVD path): 3 x 2 data with orthogonal centred columns of
+   different scale; the correlation matrix is the identity ---------- *)
+Definition exX2 : dm R := mkdm 3 2 [1; -1; 0; 1; 1; -2].
+Definition ex_evd2 : @fact R := fun _ => Some ([1; 1], exI2).
+Definition ex_svd2 : @fact R := fun _ => None.
+
+Lemma ex2_cen r i : (r < 3)%nat -> (i < 2)%nat -> cen exX2 r i = get exX2 r i.
+Proof.
+  intros Hr Hi. unfold cen, col_mu. rewrite (column_mean_nth exX2 i Hi).
+  two_cases i Hi; destruct r as [|[|[|r]]]; try lia; unfold rsum, Model.get; cbn; lra.
+Qed.
+Lemma ex2_ss0 : col_ss exX2 0 = 2.
+Proof. unfold col_ss. change (nrows exX2) with 3%nat. unfold rsum. cbn [osumn]. rewrite !ex2_cen by lia. unfold Model.get; cbn. lra. Qed.
+Lemma ex2_ss1 : col_ss exX2 1 = 6.
+Proof. unfold col_ss. change (nrows exX2) with 3%nat. unfold rsum. cbn [osumn]. rewrite !ex2_cen by lia. unfold Model.get; cbn. lra. Qed.
+Lemma ex2_sd_sq i : (i < 2)%nat -> col_sd exX2 i <> 0 /\ col_sd exX2 i * col_sd exX2 i = col_ss exX2 i / 3.
+Proof.
+  intros Hi. unfold col_sd. change (INR (nrows exX2)) with (INR 3). replace (INR 3) with 3 by (cbn; lra).
+  assert (P : 0 < col_ss exX2 i / 3) by (two_cases i Hi; rewrite ?ex2_ss0, ?ex2_ss1; lra).
+  split; [apply Rgt_not_eq, sqrt_lt_R0; exact P|apply sqrt_sqrt; lra].
+Qed.
+Lemma ex2_sd_nonzero : forall i, (i < ncols exX2)%nat -> col_sd exX2 i <> 0.
+Proof. intros i Hi. apply ex2_sd_sq. exact Hi. Qed.
+
+Lemma ex2_cor_entry i j : (i < 2)%nat -> (j < 2)%nat ->
+  get (pca_fact_input ROps exX2 true) i j = delta i j.
+Proof.
+  intros Hi Hj.
+  change (pca_fact_input ROps exX2 true)
+    with (cor_of ROps (cov_n ROps (centre ROps exX2 (column_mean ROps exX2)))
+                 (sd_of ROps (cov_n ROps (centre ROps exX2 (column_mean ROps exX2))))).
+  rewrite (get_cor exX2 i j Hi Hj (ex2_sd_nonzero i Hi) (ex2_sd_nonzero j Hj)).
+  change (nrows exX2) with 3%nat. replace (INR 3) with 3 by (cbn; lra).
+  unfold gramm, std, rsum. cbn [osumn oadd o0 ROps]. rewrite !ex2_cen by lia.
+  destruct (ex2_sd_sq 0 ltac:(lia)) as [n0 s0]. destruct (ex2_sd_sq 1 ltac:(lia)) as [n1 s1].
+  rewrite ex2_ss0 in s0. rewrite ex2_ss1 in s1.
+  two_cases i Hi; two_cases j Hj; unfold Model.get, delta; cbn [nth Nat.add Nat.mul nrows exX2 values Nat.eqb].
+  - set (a := col_sd exX2 0) in *.
+    assert (E : forall x y, x / a * (y / a) = x * y / (a * a)) by (intros; field; exact n0).
+    rewrite !E, s0. lra.
+  - field. split; assumption.
+  - field. split; assumption.
+  - set (a := col_sd exX2 1) in *.
+    assert (E : forall x y, x / a * (y / a) = x * y / (a * a)) by (intros; field; exact n1).
+    rewrite !E, s1. lra.
+Qed.
+
+Lemma ex2_pca_fact_ok : pca_fact_ok ex_svd2 ex_evd2 exX2 true.
+Proof.
+  unfold pca_fact_ok. change (svd_path exX2 true) with false. cbv iota.
+  intros d V H. unfold ex_evd2 in H. injection H as <- <-. change (ncols exX2) with 2%nat.
+  unfold fact_ok. split; [reflexivity|]. split; [reflexivity|]. split; [reflexivity|].
+  split; [|split; [|split]].
+  - intros a b Ha Hb. two_cases a Ha; two_cases b Hb; unfold rsum, Model.get, delta; cbn; lra.
+  - intros a b Ha Hb. two_cases a Ha; two_cases b Hb; unfold rsum, Model.get, delta; cbn; lra.
+  - intros i c Hi Hc.
+    rewrite (rsum_ext 2 _ (fun j => delta i j * get exI2 j c)).
+    2:{ intros j Hj. rewrite (ex2_cor_entry i j Hi Hj). reflexivity. }
+    two_cases i Hi; two_cases c Hc; unfold rsum, Model.get, lam_of, delta; cbn; lra.
+  - intros i j Hij Hj. two_cases j Hj; destruct i as [|[|i]]; try lia; unfold lam_of; cbn; lra.
+Qed.
+
+Lemma ex2_pca_fit_some k : (k <= 2)%nat -> exists st, pca_fit ROps ex_svd2 ex_evd2 exX2 k true = Some st.
+Proof.
+  intros Hk. unfold pca_fit. change (ncols exX2) with 2%nat.
+  destruct (2 <? k)%nat eqn:E; [apply Nat.ltb_lt in E; lia|].
+  unfold pca_eig. change ((ncols exX2 <? nrows exX2)%nat && negb true) with false. cbv iota.
+  unfold ex_evd2. eexists. reflexivity.
+Qed.
